@@ -74,6 +74,7 @@ type Path struct {
 	known  map[int]bool
 	site   *frame
 	decVal uint64
+	lastNow *Term
 	curFr  *frame
 	pc     []*Term
 
